@@ -17,12 +17,13 @@ CLOSED IDIOM TABLE                                   (T = `tracks` | `self.track
  parameters (by annotation)   int -> Z;  bool -> bool;  tuple[int, int] -> two Z;  dict[str, Any] -> attrs;
                         `None | tuple[np.ndarray, ...]` -> option pixels;
                         `list[tuple[tuple[np.ndarray, ...], int]]` -> list (pixels * Z);  `_top_level` -> tail only
- -- graph / tracks queries (total functions of the model; a missing node reads as "no neighbours",
-    time 0 -- the conventions of Model/Edit.v)
+ -- graph / tracks queries (total functions of the model; a missing node reads as "no successors",
+    time 0 -- the conventions of Model/Edit.v; the exceptions are marked)
  G.has_node(x)  G.has_edge(a, b) | G.has_edge(*e)     has_node s x         has_edge s a b
  G.out_degree(x)  G.in_degree(x)                      out_degree s x       in_degree s x
- G.successors(x) | T.successors(x)                    successors s x       (list(..) / iter(..) of it: the same list)
- G.predecessors(x) | T.predecessors(x)                predecessors s x
+ G.successors(x) | T.successors(x)                    successors s x       (list(..) / iter(..) of it: the same list;
+                                                      NetworkXError for a missing x NOT modelled, as in the hand model)
+ G.predecessors(x) | T.predecessors(x)                do l, s <- py_predecessors s x      (NetworkXError = Err ENetworkX)
  G.in_edges(x)                                        in_edges s x         (PyRt)
  T.get_time(x)                                        time_of s x
  T.get_lineage_id(x)                                  zattr s x KLin       (an option: Python None = None)
@@ -38,7 +39,9 @@ CLOSED IDIOM TABLE                                   (T = `tracks` | `self.track
  -- expressions
  ints, + - , == != < <= > >=                          Z, + -, =? negb(=?) <? <=? >? >=?
  a == b (both may be None)                            opt_eqb a b
- x is None / x is not None (x a local)                match x with None / Some x (x is an integer inside the Some branch)
+ x is None / x is not None (x a local)                match x with None / Some x (x is an integer inside the Some branch);
+                                                      decided statically when x is known to be an integer (result of
+                                                      T.get_track_id: the model reads id attributes as integers) or None
  not c;  c1 and c2 (statement conditions)             branches swapped;  nested conditionals (short circuit)
  len(l);  len(<2-tuple parameter>)                    Z.of_nat (length l);  2
  e[0] e[1] (2-tuple);  a, b = e                       the components
@@ -59,7 +62,8 @@ CLOSED IDIOM TABLE                                   (T = `tracks` | `self.track
  assert len(np.unique(all_pixels[0])) == 1, ..        holds by representation (one frame index per pixels value)
  warnings.warn(<message>, stacklevel=k)               no effect (message: names and T.get_time(name) only)
  -- statements
- x = e;  x -= e                                       let x := e in ..
+ x = e;  x: T = e;  x -= e                            let x := e in ..      (a raising sub-expression of e, see above,
+                                                      is bound first, in evaluation order; none of them changes the state)
  if / elif / else                                     if .. then .. else ..;  variables assigned inside and
                                                       visible afterwards are returned through the monad (join)
  for x in l: body                                     py_for l <loop-carried vars> s (fun x vars s => body)
@@ -402,10 +406,12 @@ def call(n, env, pre, hoist, Zof):
                 if len(args) == 2: return V("(has_edge s %s %s)" % (Zof(args[0]), Zof(args[1])), "bool")
             if m in ("has_node",) and len(args) == 1: return V("(has_node s %s)" % Zof(args[0]), "bool")
             if m in ("out_degree", "in_degree") and len(args) == 1: return V("(%s s %s)" % (m, Zof(args[0])), "Z")
-            if m in ("successors", "predecessors") and len(args) == 1: return V("(%s s %s)" % (m, Zof(args[0])), "listZ")
+            if m == "successors" and len(args) == 1: return V("(successors s %s)" % Zof(args[0]), "listZ")
+            if m == "predecessors" and len(args) == 1: return hoist("py_predecessors s %s" % Zof(args[0]), "listZ", "l")
             if m == "in_edges" and len(args) == 1: return V("(in_edges s %s)" % Zof(args[0]), "listE")
         if recv.ty == "TRACKS":
-            if m in ("successors", "predecessors") and len(args) == 1: return V("(%s s %s)" % (m, Zof(args[0])), "listZ")
+            if m == "successors" and len(args) == 1: return V("(successors s %s)" % Zof(args[0]), "listZ")
+            if m == "predecessors" and len(args) == 1: return hoist("py_predecessors s %s" % Zof(args[0]), "listZ", "l")
             if m == "get_time" and len(args) == 1: return V("(time_of s %s)" % Zof(args[0]), "Z")
             if m == "get_lineage_id" and len(args) == 1: return V("(zattr s %s KLin)" % Zof(args[0]), "optZ")
             if m == "get_track_id" and len(args) == 1: return hoist("py_get_track_id s %s" % Zof(args[0]), "Z")
@@ -630,12 +636,12 @@ def block(stmts, env, k, loopk=None):
         return "bind (A := %s) (\n%s)\n(fun %s s =>\n%s)" % (tuple_ty(tys), ind(txt), tuple_pat([cn(x) for x in names]), go(e2))
     if isinstance(s, ast.For):
         if s.orelse: fail(s, "for-else")
-        inverse_loop = False
+        ipre = []                 # a raising iterable expression is evaluated once, before the loop
         it = s.iter
         if isinstance(it, ast.Call) and isinstance(it.func, ast.Name) and it.func.id == "reversed" and len(it.args) == 1 and is_self_actions(it.args[0]):
             itv = V("(rev acts)", "acts")
         else:
-            itv = ex(it, env, None)
+            itv = ex(it, env, ipre)
         if itv.ty not in ELEM: fail(s, "loop over %s" % itv.ty)
         el = ELEM[itv.ty]
         x = fresh("x")
@@ -670,7 +676,7 @@ def block(stmts, env, k, loopk=None):
         e2 = rebind(env, names, tys)
         e2.v.update(leak)
         pat = tuple_pat([cn(v) for v in names])
-        return "bind (A := %s) (py_for %s %s s (fun %s %s s =>\n%s))\n(fun %s s =>\n%s)" % (
+        return binds(ipre) + "bind (A := %s) (py_for %s %s s (fun %s %s s =>\n%s))\n(fun %s s =>\n%s)" % (
             tuple_ty(tys), itv.coq, "(%s)" % ", ".join(init) if len(init) > 1 else (init[0] if init else "tt"),
             x, pat, ind(head + txt), pat, go(e2))
     if isinstance(s, ast.Try):
@@ -802,7 +808,11 @@ def constructor(c, env, pre):
     if not args or ex(args[0], env, None).ty != "TRACKS": fail(c, "first argument must be the tracks")
     args = args[1:]
 
+    kworder = [k for k in kw if k != "_top_level"]
+    asked = []
+
     def arg(i, key, ty, default=None):
+        if i >= len(args) and key in kw: asked.append(key)
         n = args[i] if i < len(args) else kw.pop(key, None)
         if i < len(args) and key in kw: fail(c, "argument given twice")
         if n is None:
@@ -816,6 +826,7 @@ def constructor(c, env, pre):
 
     def done(nargs):
         if len(args) > nargs or kw: fail(c, "unexpected arguments")
+        if pre and asked != kworder: fail(c, "keyword arguments with raising sub-expressions, not in parameter order")
 
     def nested():
         tl = kw.pop("_top_level", None)
